@@ -1,3 +1,4 @@
+pub mod normalize;
 pub mod values;
 
 use crate::rng::Rng;
@@ -32,6 +33,7 @@ pub trait Suite {
 pub fn by_name(name: &str) -> Option<Box<dyn Suite>> {
     Some(match name {
         "values" => Box::new(values::Values),
+        "normalize" => Box::new(normalize::Normalize),
         _ => return None,
     })
 }
